@@ -315,4 +315,29 @@ theorem vShuffleLoop_inv (gap : UInt8) (inplace : Bool) (msa : Array Bytes) (ale
     apply ih (apos + 1) _ _ (by omega) (by omega)
     exact vShuffle_step gap inplace msa shuf apos r hap (fun i hi => by have := hrows i hi; omega) h
 
+/-- in place = separate storage: both variants read the same (still unmodified) column at every step -/
+theorem vShuffleLoop_inplace_eq (gap : UInt8) (msa : Array Bytes) (alen : Nat)
+    (hrows : ∀ i (h : i < msa.size), alen + 2 ≤ msa[i].size) :
+    ∀ (n apos : Nat) (shuf : Array Bytes) (r : Rng), 1 ≤ apos → apos + n = alen + 1 → VInv gap msa apos shuf →
+      vShuffleLoop gap true msa n apos shuf r = vShuffleLoop gap false msa n apos shuf r := by
+  intro n
+  induction n with
+  | zero => intro apos shuf r _ _ _; rfl
+  | succ n ih =>
+    intro apos shuf r hap hn h
+    have hcolL : colL shuf apos = colL msa apos := h.rest apos (Or.inr (Nat.le_refl _))
+    have hcol : vColumn gap shuf apos = vColumn gap msa apos := by
+      apply Array.toList_inj.mp
+      rw [vColumn_toList, vColumn_toList, hcolL]
+    have hput : ∀ vals, vPutBack gap shuf apos vals shuf.size 0 shuf = vPutBack gap msa apos vals msa.size 0 shuf := by
+      intro vals
+      apply Array.toList_inj.mp
+      rw [vPutBack_toList gap shuf apos vals shuf.size 0 shuf (Nat.le_refl _) rfl,
+        vPutBack_toList gap msa apos vals msa.size 0 shuf (Nat.le_refl _) h.size, hcolL]
+      simp only [Nat.sub_self]
+    have hstep := vShuffle_step gap false msa shuf apos r hap (fun i hi => by have := hrows i hi; omega) h
+    simp only [vShuffleLoop, ↓reduceIte, Bool.false_eq_true] at hstep ⊢
+    rw [hcol, hput]
+    exact ih _ _ _ (by omega) (by omega) hstep
+
 end EaselModel.Shuffle
